@@ -13,11 +13,13 @@ import json
 import os
 import random
 
-from . import common, lexlib
+from . import common, lexlib, c14_big
 from .common import log
 
 NSYM = 49
-RECORD_COUNT = {"quick": 1500, "thorough": 8000}
+RECORD_COUNT = {"quick": 1500, "thorough": 7000}
+# dimension audit: long random texts (10..180 KB), recorded as line-aligned windows (random, the end, around 2^12 / 2^16 / 2^17)
+RECORD_BIG = {"quick": 12, "thorough": 72}
 SIM_TRACES = 300
 
 RULE_TEXT = (
@@ -35,7 +37,15 @@ RULE_TEXT = (
     "integers, every escape form, CRLF/LF/mixed line ends, comments, a few illegal lexemes) and arbitrary bytes (delta "
     "only) are lexed by the real lexers and every recording is validated by TLC (Trace_Lex: the logged bytes are lexed "
     "again by PenneLex and every logged item must satisfy the next reference item). Non-trivial = distinct texts for "
-    "which the rule yields at least one token or lexical error.")
+    "which the rule yields at least one token or lexical error. Dimension audit: (a) MC_LexBig: SCALED texts Fill^n Pad^q Tail "
+    "(17 fillers: one token / payload / error / comment / CRLF per line, dense and half-dense one-line fillers; 12 tails: last token at "
+    "the very end with / without LF / CRLF / comment, unclosed literal, lone CR) and Head Unit^n Rest (22 lexemes that grow inside: "
+    "identifiers, separators next to prefix and suffix, leading zeros, strings, comments, blanks); TLC checks the scaling lemmas "
+    "(RepLemma n<=3, GrowLemma 3 points) on the reference lexer and emits the small items; the check expands them so that a token "
+    "ends / starts exactly at 256, 4096, 65536, line / token / error / payload counts cross 100, 256, 1024, 65536 and lexeme lengths "
+    "and columns cross 256, 4096, 65536; E103 is unconstrained above 65536 tokens (as in C15). (b) long random texts (10..180 KB) "
+    "recorded as line-aligned windows (random, the END of the text, around 2^12 / 2^16 / 2^17) with rebased offsets, both lexers; "
+    "the first long text counts (70 000 lines `k 0xk ku32`: 210 000 payloads), every sixth has 12 arbitrary bytes (delta only).")
 
 ASSUMPTIONS = [
     "TLC's evaluation of spec/PenneLex.tla is the oracle; Python only compares (checks/lexlib.py) and classifies deviations by input shape",
@@ -45,14 +55,35 @@ ASSUMPTIONS = [
     "line/column of E101, the exact extent of an error inside a string/char literal (it must start inside the literal, on its line)",
     "documented generation differences switched by the parameter g: `return` reserved by delta; alpha counts offsets/columns in "
     "characters and reports one E110 per offending character, delta counts bytes and reports one E110 per byte; delta ends with two EndOfSource tokens",
-    "delta stops recording lexical errors after 100 (MAX_NUM_LEXING_ERRORS); nothing is compared beyond the 100th error of a text",
+    "delta stops recording lexical errors after 100 (MAX_NUM_LEXING_ERRORS); beyond the 100th error of a text further ERRORS are not "
+    "demanded of the second generation, the tokens behind them still are",
+    "scaled texts: what n copies of a filler do to the reference lexing (RepLemma, GrowLemma of spec/MC_LexBig.tla) is checked by TLC "
+    "for n <= 3 and extended to large n by the check (the automaton is in its start state after every copy); windows of long texts start "
+    "at line starts, offsets and line numbers are rebased by the harness (subtraction only)",
     "delta does not decode string literals: the bytes of a string literal are compared for alpha only",
     "NumValue (fast limb construction in PenneLex) is checked against Wide!Parse by the tiling invariant on every enumerated integer literal",
 ]
 
 
 def text_key(sig, text):
+    if hasattr(text, "parts"):
+        # a scaled text (checks/c14_big.py): the key names the recipe, not a megabyte of text
+        return "%s :: scaled %s" % (sig, " + ".join("%s x %d" % (lexlib.esc(bytes(u)), n) for u, n in text.parts if n))
     return "%s :: %s" % (sig, lexlib.esc(text))
+
+
+def text_detail(text):
+    if hasattr(text, "parts"):
+        return {"parts": text.parts, "bytes": len(text), "text_repr": lexlib.esc(text[:60]) + " ... " + lexlib.esc(text[-60:])}
+    return {"text": list(text), "text_repr": lexlib.esc(text)}
+
+
+def trim(items, detail):
+    """observed / expected lists of a scaled text: the neighbourhood of the first deviation only"""
+    if not isinstance(items, list) or len(items) <= 40:
+        return items
+    at = detail.get("at", 0) if isinstance(detail, dict) else 0
+    return {"around_item": at, "items": items[max(0, at - 5):at + 6], "count": len(items)}
 
 
 class Tally:
@@ -80,19 +111,21 @@ def judge_text(rep, tally, text, utf8, exp_d, exp_a, obs, origin):
             tally.sigs[sig] += 1
             if not sig.startswith("alpha crlf-offset"):
                 structural = True
+            big = hasattr(text, "parts")
             rep.violation("lex", text_key(sig, text),
-                          {"text": list(text), "text_repr": lexlib.esc(text), "generation": g, "problem": sig,
-                           "detail": detail, "expected": exp, "observed": obs[g[0]], "origin": origin,
-                           "how": "bin/check C14 --replay <this file>"})
+                          dict(text_detail(text), generation=g, problem=sig, detail=detail,
+                               expected=trim(exp, detail) if big else exp,
+                               observed={"t": trim(obs[g[0]].get("t"), detail)} if big and "t" in obs[g[0]] else obs[g[0]],
+                               origin=origin, how="bin/check C14 --replay <this file>"))
     if utf8 and not structural:
         # agreement clause: kinds, values and codes of the two lexers (a deviation from the rule reported above
         # already implies the disagreement; it is not reported twice)
         for sig, detail in lexlib.agreement(obs, text):
             tally.sigs[sig] += 1
+            big = hasattr(text, "parts")
             rep.violation("agree", text_key(sig, text),
-                          {"text": list(text), "text_repr": lexlib.esc(text), "problem": sig,
-                           "alpha": obs["a"], "delta": obs["d"], "origin": origin,
-                           "how": "bin/check C14 --replay <this file>"})
+                          dict(text_detail(text), problem=sig, alpha=detail if big else obs["a"], delta=None if big else obs["d"],
+                               origin=origin, how="bin/check C14 --replay <this file>"))
 
 
 def replay_cases(rep, tally, cases, tag):
@@ -203,16 +236,24 @@ def run_traces(rep, tier, seed, tally, selftest):
     count = RECORD_COUNT[tier]
     chunks = 12
     prefix = os.path.join(common.WORK, "C14-trace")
-    common.pvh(["record", count, seed, prefix, chunks], exe_name="pvh_lex")
+    for c in range(chunks):
+        for f in ("%s.%d.ndjson" % (prefix, c), "%s.big.%d.ndjson" % (prefix, c)):
+            if os.path.exists(f):
+                os.remove(f)
+    common.pvh(["record", count, seed, prefix, chunks, RECORD_BIG[tier]], exe_name="pvh_lex")
     files = [f for f in ("%s.%d.ndjson" % (prefix, c) for c in range(chunks)) if os.path.exists(f)]
+    files += [f for f in ("%s.big.%d.ndjson" % (prefix, c) for c in range(chunks)) if os.path.exists(f) and os.path.getsize(f) > 0]
     results = common.tlc_traces("Trace_Lex", "Trace_Lex_validate.cfg", files, timeout=1700, parallel=12)
-    info = {"recordings": 0, "accepted": 0, "rejected": 0, "texts": 0, "items": 0, "agreement_checked": 0}
+    info = {"recordings": 0, "accepted": 0, "rejected": 0, "texts": 0, "items": 0, "agreement_checked": 0,
+            "windows_of_long_texts": 0, "longest_text": 0}
     sample = None
     pending = []
     for res in results:
         recs = common.read_ndjson(res["file"])
         info["recordings"] += len(recs)
         info["items"] += sum(len(r["t"]) for r in recs)
+        info["windows_of_long_texts"] += sum(1 for r in recs if "big" in r)
+        info["longest_text"] = max([info["longest_text"]] + [r["len"] for r in recs if "big" in r])
         rej = rejected_of(res)
         if res["total"] != len(recs) or res["matched"] != len(recs) - len(rej) or (not res["accepted"] and not rej):
             raise common.ToolError("Trace_Lex bookkeeping: %s vs %d recordings / %d REJECT lines" % (res, len(recs), len(rej)))
@@ -350,12 +391,18 @@ def run(rep, tier, seed, selftest):
     os.makedirs(common.WORK, exist_ok=True)
     tally = Tally()
     stats = run_enumeration(rep, tier, tally, seed)
+    # dimension audit: scaled texts (offsets / lines / columns / lengths / counts beyond 2^8, 2^12, 2^16)
+    big = c14_big.run(rep, tier, tally, judge_text, selftest)
+    stats["generated"] += big["tlc_generated"]
+    stats["distinct"] += big["tlc_states"]
+    stats["runs"] += 1
     log("[replay] %d texts enumerated by TLC and lexed by both real lexers; %d violations so far" %
         (tally.texts, len(rep.violations)))
     enumerated = tally.texts
     info, sample, selftests = run_traces(rep, tier, seed, tally, selftest)
     if selftest:
         selftests.update(replay_selftest())
+        selftests.update(big.pop("selftests", {}))
         log("[selftest] %s" % json.dumps(selftests))
         for name, ok in selftests.items():
             if not ok:
@@ -383,6 +430,9 @@ def run(rep, tier, seed, selftest):
         "max_symbols": 3 if tier == "quick" else 4,
         "tlc_runs": stats["runs"],
         "token_pair_texts": stats.get("pair_texts", 0),
+        "scaled_texts": big,
+        "windows_of_long_random_texts": info["windows_of_long_texts"],
+        "longest_random_text_bytes": info["longest_text"],
         "simulated_longer_texts": stats.get("sim_texts", 0),
         "tiling_invariants_hold": stats["ok"],
         "violated_invariant": stats["violated"],
@@ -405,6 +455,22 @@ def replay(path):
     print("kind:", d.get("kind"))
     print("key :", d.get("key"))
     text = det.get("text")
+    if text is None and det.get("parts"):
+        # a scaled text: rebuild it from the recipe and run both lexers again
+        print("problem:", det.get("problem"))
+        print("recipe :", " + ".join("%s x %d" % (lexlib.esc(bytes(u)), n) for u, n in det["parts"]), "(%s)" % det.get("origin"))
+        print("expected around the deviation:", json.dumps(det.get("expected"))[:2000])
+        inp = os.path.join(common.WORK, "C14-replay-in.ndjson")
+        outp = os.path.join(common.WORK, "C14-replay-out.ndjson")
+        common.write_ndjson(inp, [{"parts": det["parts"]}])
+        common.pvh(["replay", inp, outp], exe_name="pvh_lex")
+        o = common.read_ndjson(outp)[0]
+        at = (det.get("detail") or {}).get("at", 0)
+        for g in ("d", "a"):
+            if g in o:
+                print("observed now (%s), items %d..:" % ("delta" if g == "d" else "alpha", max(0, at - 3)),
+                      json.dumps(o[g].get("t", o[g])[max(0, at - 3):at + 4] if "t" in o[g] else o[g])[:2000])
+        return 0
     if text is None:
         print(json.dumps(d, indent=1))
         return 0
